@@ -71,7 +71,26 @@ func (t ts) add(d int64) ts {
 	return ts{sec, ns}
 }
 
-type sample struct{ t0, t1, t2, t3 ts }
+// c0, c3: when mono is set, the client times handed to the filter (same wall
+// instants as t0, t3, but derived from time.Now() and so carrying a monotonic reading)
+type sample struct {
+	t0, t1, t2, t3 ts
+	mono           bool
+	c0, c3         time.Time
+}
+
+func (s sample) T0() time.Time {
+	if s.mono {
+		return s.c0
+	}
+	return s.t0.time()
+}
+func (s sample) T3() time.Time {
+	if s.mono {
+		return s.c3
+	}
+	return s.t3.time()
+}
 
 func (s sample) String() string {
 	return lib.V(s.t0.String(), s.t1.String(), s.t2.String(), s.t3.String())
@@ -128,7 +147,7 @@ func luckyHistK(kind string, cap, pick int, ops []lop, tags string) {
 		}()
 		for _, o := range ops {
 			if o.do {
-				outs = append(outs, int64(f.Do(o.s.t0.time(), o.s.t1.time(), o.s.t2.time(), o.s.t3.time())))
+				outs = append(outs, int64(f.Do(o.s.T0(), o.s.t1.time(), o.s.t2.time(), o.s.T3())))
 			} else {
 				f.Reset()
 			}
@@ -189,7 +208,7 @@ func runNops(f *client.NtimedFilter, ops []nop, br *int64, seen map[int64]int, p
 			if br != nil {
 				*br = 0
 			}
-			outs = append(outs, int64(f.Do(o.s.t0.time(), o.s.t1.time(), o.s.t2.time(), o.s.t3.time())))
+			outs = append(outs, int64(f.Do(o.s.T0(), o.s.t1.time(), o.s.t2.time(), o.s.T3())))
 			if br != nil {
 				seen[*br]++
 			}
@@ -269,7 +288,7 @@ func luckyReset(cap, pick int, pre, suf []lop, tags string) {
 		}()
 		for _, o := range ops {
 			if o.do {
-				x := int64(f.Do(o.s.t0.time(), o.s.t1.time(), o.s.t2.time(), o.s.t3.time()))
+				x := int64(f.Do(o.s.T0(), o.s.t1.time(), o.s.t2.time(), o.s.T3()))
 				if keep {
 					outs = append(outs, x)
 				}
@@ -370,7 +389,7 @@ func mkSample(seq int, off, rtd, out, proc int64) sample {
 	t1 := t0.add(out + off)
 	t2 := t1.add(proc)
 	t3 := t0.add(rtd + proc)
-	return sample{t0, t1, t2, t3}
+	return sample{t0: t0, t1: t1, t2: t2, t3: t3}
 }
 
 func genOffset(r *lib.Rng, mode int) int64 {
